@@ -27,7 +27,7 @@ class C11(C10):
                    "schemas of this batch always contain INVERSE attributes; C10 covers the loader without them"]
 
     def n_plans(self, tier):
-        return 8000 if tier == "quick" else 200000
+        return 16000 if tier == "quick" else 200000
 
     def expected_inverse(self, plan, x):
         """{(owner entity lower, inverse name lower): sorted ids} for simple instance x"""
